@@ -10,8 +10,8 @@ import (
 
 // Gen is the single PRNG every random choice derives from (splitmix64), so that a seed replays.
 type Gen struct {
-	s              uint64
-	shard, shards  int
+	s             uint64
+	shard, shards int
 }
 
 func NewGen(seed uint64) *Gen { return &Gen{s: seed*0x9E3779B97F4A7C15 + 0x1234567} }
